@@ -13,7 +13,7 @@ import subprocess
 from vlib import core
 from checks import parsegen, parse_common, pipeline_gen
 
-THEOREMS = ["C09_parse_total", "C09_scan_boundaries", "C09_parse_old_refuted", "C09_parse_fixed_witness", "C09_range_count_total"]
+THEOREMS = ["C09_parse_total", "C09_scan_boundaries", "C09_parse_old_refuted", "C09_parse_fixed_witness", "C09_range_count_total", "C09_model_parse_total"]
 PROPS = "theories/Props/C09.v"
 REGISTRY = {
     "level": "proof",
